@@ -141,6 +141,12 @@ impl MechTable {
   }
 
   pub fn check_record_schema(&self, record: &MechRecord) -> MResult<bool> {
+    // Every column needs a value: a record that lacks one would leave the columns with different lengths
+    for (&col_id, _) in &self.data {
+      if !record.data.contains_key(&col_id) {
+        return Err(MechError::new(TableColumnNotFoundError { column_id: col_id }, None).with_compiler_loc());
+      }
+    }
     for (&col_id, record_value) in &record.data {
       // Check that the column exists in the table
       let (expected_kind, _column_matrix) = match self.data.get(&col_id) {
